@@ -39,9 +39,9 @@ def save_results(r):
     json.dump(r, open(RESULTS, "w"), indent=1, sort_keys=True)
 
 
-def collect():
-    for pid in sorted(os.listdir("/tmp/seed")):
-        src = os.path.join("/tmp/seed", pid, "seeded")
+def collect(root="/tmp/seed"):
+    for pid in sorted(os.listdir(root)):
+        src = os.path.join(root, pid, "seeded")
         if not os.path.isdir(src):
             continue
         for v in sorted(os.listdir(src)):
@@ -74,9 +74,9 @@ def confirm_one(pid, v):
             shutil.copy(os.path.join(d, fn), os.path.join(wt, "seeded", v, fn))
         env = dict(os.environ, PYTHONPATH=os.path.join(wt, "src"))
         build_c(wt)
-        p = subprocess.run(["git", "-C", wt, "apply", os.path.join(d, "patch.diff")], capture_output=True, text=True)
+        p = subprocess.run(["patch", "-p1", "-s", "-i", os.path.join(d, "patch.diff")], cwd=wt, capture_output=True, text=True)
         if p.returncode != 0:
-            return {"applies": False, "error": p.stderr[-500:]}
+            return {"applies": False, "error": (p.stdout + p.stderr)[-500:]}
         res["applies"] = True
         touched_c = ".c" in open(os.path.join(d, "patch.diff")).read().split("+++")[1][:80] if "+++" in open(os.path.join(d, "patch.diff")).read() else False
         if any(l.startswith("+++") and l.strip().endswith(".c") for l in open(os.path.join(d, "patch.diff"))):
@@ -140,7 +140,7 @@ def main():
     ap.add_argument("--jobs", type=int, default=4)
     a = ap.parse_args()
     if a.cmd == "collect":
-        return collect()
+        return collect(a.ids[0] if a.ids else "/tmp/seed")
     res = load_results()
     vs = variants(a.ids)
     with ThreadPoolExecutor(a.jobs) as ex:
